@@ -178,6 +178,30 @@ func (in *Interp) native(fv *FuncV, args []Value, at token.Pos) []Value {
 		return []Value{strings.TrimSpace(str(args[0]))}
 	case "strings.Trim":
 		return []Value{strings.Trim(str(args[0]), str(args[1]))}
+	case "strings.TrimLeft":
+		return []Value{strings.TrimLeft(str(args[0]), str(args[1]))}
+	case "strings.TrimRight":
+		return []Value{strings.TrimRight(str(args[0]), str(args[1]))}
+	case "strings.IndexByte":
+		return []Value{int64(strings.IndexByte(str(args[0]), byte(args[1].(int64))))}
+	case "strings.LastIndexByte":
+		return []Value{int64(strings.LastIndexByte(str(args[0]), byte(args[1].(int64))))}
+	case "strings.LastIndex":
+		return []Value{int64(strings.LastIndex(str(args[0]), str(args[1])))}
+	case "strings.IndexRune":
+		return []Value{int64(strings.IndexRune(str(args[0]), rune(args[1].(int64))))}
+	case "strings.ContainsRune":
+		return []Value{strings.ContainsRune(str(args[0]), rune(args[1].(int64)))}
+	case "strings.ContainsAny":
+		return []Value{strings.ContainsAny(str(args[0]), str(args[1]))}
+	case "strings.IndexAny":
+		return []Value{int64(strings.IndexAny(str(args[0]), str(args[1])))}
+	case "strings.SplitN":
+		return []Value{fromStrSlice(strings.SplitN(str(args[0]), str(args[1]), int(args[2].(int64))))}
+	case "strings.Fields":
+		return []Value{fromStrSlice(strings.Fields(str(args[0])))}
+	case "strings.Compare":
+		return []Value{int64(strings.Compare(str(args[0]), str(args[1])))}
 	case "strings.HasPrefix":
 		return []Value{strings.HasPrefix(str(args[0]), str(args[1]))}
 	case "strings.HasSuffix":
